@@ -40,7 +40,7 @@ def _store(dirs, store):
 
 
 @harness(P, quick=grid(nd=[4, 6], nrec=[1], store=["asc", "seam", "shuffled"]) + grid(nd=[4], nrec=[1], store=["desc"]),
-         thorough=grid(nd=[5, 8], nrec=[2], store=["asc", "seam", "desc", "shuffled"]))
+         thorough=grid(nd=[5, 8], nrec=[2], store=["asc", "seam", "desc", "shuffled"]), witness_interior=True)
 def ndbc_ascii_reconstruction(env, nd, nrec, store="asc"):
     """construct_spectra: the directional spectrum built from E(f), r1, r2, alpha1, alpha2 integrates over direction to E(f)."""
     from wavespectra.input.ndbc_ascii import construct_spectra
